@@ -870,6 +870,53 @@ theorem SegExt.trans {st st1 st2 : St} {post post1 post2 : List Nat} (h0 : 0 ≤
   · intro x hx
     rw [h2.segFrame x (by omega), h1.segFrame x hx]
 
+/-- which rows carry the mark of this column after a stretch of the search that handled the nonzeros `rows` -/
+def MarkExt (e : Env) (L : Array Int) (st : St) (post : List Nat) (st' : St) (post' : List Nat) (rows : List Int) : Prop :=
+  ∀ nw, post' = nw ++ post → ∀ r, mk2 e st' r = e.jcol ↔
+    (mk2 e st r = e.jcol ∨ r ∈ rows ∨ ∃ t ∈ nw, r ∈ adjRows e L ((t : Nat) : Int))
+
+theorem or_shuffle2 {A B C D E : Prop} : ((A ∨ B ∨ C) ∨ D ∨ E) ↔ (A ∨ (B ∨ D) ∨ (E ∨ C)) := by tauto
+theorem or_shuffle3 {A B C D : Prop} : ((A ∨ B) ∨ C ∨ D) ↔ (A ∨ B ∨ C ∨ D) := by tauto
+
+theorem ex_append {P : Nat → Prop} (a b : List Nat) : (∃ t ∈ a ++ b, P t) ↔ ((∃ t ∈ a, P t) ∨ ∃ t ∈ b, P t) := by
+  constructor
+  · rintro ⟨t, ht, hp⟩
+    rcases mem_append.mp ht with h | h
+    · exact Or.inl ⟨t, h, hp⟩
+    · exact Or.inr ⟨t, h, hp⟩
+  · rintro (⟨t, h, hp⟩ | ⟨t, h, hp⟩)
+    · exact ⟨t, mem_append_left _ h, hp⟩
+    · exact ⟨t, mem_append_right _ h, hp⟩
+
+theorem ex_cons {P : Nat → Prop} (c : Nat) (b : List Nat) : (∃ t ∈ c :: b, P t) ↔ (P c ∨ ∃ t ∈ b, P t) := by
+  simp
+
+theorem MarkExt.of_nil {st st' : St} {post : List Nat} {krow : Int}
+    (h : ∀ r, mk2 e st' r = e.jcol ↔ (mk2 e st r = e.jcol ∨ r = krow)) : MarkExt e L st post st' post [krow] := by
+  intro nw hnw r
+  have : nw = [] := by simpa using hnw
+  subst this
+  rw [h r]; simp
+
+theorem MarkExt.refl (st : St) (post : List Nat) : MarkExt e L st post st post [] := by
+  intro nw hnw r
+  have : nw = [] := by simpa using hnw
+  subst this
+  simp
+
+theorem MarkExt.trans {st st1 st2 : St} {post post1 post2 : List Nat} {rows1 rows2 : List Int}
+    (h1 : MarkExt e L st post st1 post1 rows1) (h2 : MarkExt e L st1 post1 st2 post2 rows2)
+    (hn1 : ∃ n1, post1 = n1 ++ post) (hn2 : ∃ n2, post2 = n2 ++ post1) :
+    MarkExt e L st post st2 post2 (rows1 ++ rows2) := by
+  intro nw hnw r
+  obtain ⟨n1, e1⟩ := hn1
+  obtain ⟨n2, e2⟩ := hn2
+  have hnweq : nw = n2 ++ n1 := by
+    have : nw ++ post = (n2 ++ n1) ++ post := by rw [← hnw, e2, e1]; simp
+    exact append_cancel_right this
+  rw [h2 n2 e2 r, h1 n1 e1 r, hnweq, ex_append, mem_append]
+  exact or_shuffle2
+
 theorem Root.of_mild {st st1 : St} {post : List Nat} (hm : Mild st st1) (h : Root (e := e) (L := L) (nextl0 := nextl0) post st)
     (hok : StOK e L nextl0 st1) (hma : MA e nextl0 st1) : Root (e := e) (L := L) (nextl0 := nextl0) post st1 :=
   ⟨hok, h.pok.of_mild hm, fun t ht hd => h.fin t ht ((hm.disc _).mp hd), hma⟩
@@ -881,8 +928,11 @@ theorem rootStep_spec (hE : EnvOK e L nextl0) {adj : Nat → List Nat}
     {krow : Int} (hr0 : 0 ≤ krow) (hr1 : krow < e.m) :
     ∃ st' post', rootStep e fuel st krow = some st' ∧
       Root (e := e) (L := L) (nextl0 := nextl0) post' st' ∧ SegExt st post st' post' ∧
-      post' = (rootCols e [krow]).foldl (fun acc k => dfsVisit adj e.jcol.toNat (repN e k) acc) post := by
+      post' = (rootCols e [krow]).foldl (fun acc k => dfsVisit adj e.jcol.toNat (repN e k) acc) post ∧
+      MarkExt e L st post st' post' [krow] := by
   have hE1 : (EMPTY : Int) = -1 := rfl
+  have hmr0 : 0 ≤ 2 * e.m + krow := by have := hE.m0; omega
+  have hmr1 : 2 * e.m + krow < st.marker.size := by have := hR.ok.szMark; omega
   have hst := hR.ok
   have hpo := hR.pok
   have hfin : rd e.perm_r krow ≠ EMPTY → disc st (repOf e (rd e.perm_r krow)) →
@@ -905,7 +955,8 @@ theorem rootStep_spec (hE : EnvOK e L nextl0) {adj : Nat → List Nat}
   unfold rootStep
   by_cases hmk : mk2 e st krow = e.jcol
   · simp only [hmk, if_true]
-    exact ⟨st, post, rfl, hR, SegExt.refl _ _, hpost _ (fun _ => rfl) (fun hkp => (hfin hkp (hst.markRep _ hr0 hr1 hmk hkp)).symm)⟩
+    exact ⟨st, post, rfl, hR, SegExt.refl _ _, hpost _ (fun _ => rfl) (fun hkp => (hfin hkp (hst.markRep _ hr0 hr1 hmk hkp)).symm),
+      MarkExt.of_nil (fun r => ⟨Or.inl, fun h => h.elim id (fun h => by rw [h]; exact hmk)⟩)⟩
   · simp only [hmk, if_false]
     by_cases hkp : rd e.perm_r krow = EMPTY
     · simp only [hkp, if_true]
@@ -921,7 +972,11 @@ theorem rootStep_spec (hE : EnvOK e L nextl0) {adj : Nat → List Nat}
           (fun hin => hmk (hst.app.rows _ hin).2.2.2)
       exact ⟨_, post, rfl, hR.of_mild hm hokB (hR.ma.markAppend hst _ _ hokB
           (hst.room hr0 hr1 hkp (fun hin => hmk (hst.app.rows _ hin).2.2.2))), SegExt.of_mild hm,
-        hpost _ (fun _ => rfl) (fun h => absurd hkp h)⟩
+        hpost _ (fun _ => rfl) (fun h => absurd hkp h),
+        MarkExt.of_nil (fun r => by
+          have := mk2_mark_iff (e := e) (st := st) (row := krow) (r := r) hmr0 hmr1
+          unfold mk2 at this ⊢
+          rw [(appendRow_lsub _ _ _).2.2]; exact this)⟩
     · simp only [hkp, if_false]
       by_cases hdc : disc st (repOf e (rd e.perm_r krow))
       · have hdc' : rd st.repfnz (repOf e (rd e.perm_r krow)) ≠ EMPTY := hdc
@@ -938,7 +993,12 @@ theorem rootStep_spec (hE : EnvOK e L nextl0) {adj : Nat → List Nat}
         exact ⟨_, post, rfl, hR.of_mild hm ((hst.mark krow (fun _ => hdc)).lower hkp hd')
           ((hR.ma.markPivoted hkp).congr (by unfold lowerFnz; split <;> rfl) (by unfold lowerFnz; split <;> rfl)
             (fun r hr => by unfold lowerFnz at hr; split at hr <;> exact hr)), SegExt.of_mild hm,
-          hpost _ (fun h => absurd h hkp) (fun _ => (hfin hkp hdc).symm)⟩
+          hpost _ (fun h => absurd h hkp) (fun _ => (hfin hkp hdc).symm),
+          MarkExt.of_nil (fun r => by
+            have := mk2_mark_iff (e := e) (st := st) (row := krow) (r := r) hmr0 hmr1
+            unfold mk2 at this ⊢
+            unfold lowerFnz
+            split <;> exact this)⟩
       · have hdisc : rd st.repfnz (repOf e (rd e.perm_r krow)) = EMPTY := by
           unfold disc at hdc; exact not_not.mp hdc
         simp only [hdisc, ne_eq, not_true_eq_false, if_false]
@@ -1060,7 +1120,7 @@ theorem rootStep_spec (hE : EnvOK e L nextl0) {adj : Nat → List Nat}
             rw [← Nat.succ_mul]; exact Nat.mul_le_mul_right _ hlen
           rw [Nat.succ_mul] at hfuel
           omega
-        refine ⟨st3, c :: post2, ?_, ⟨hst3, hpo3, ?_, hres2.ma.congr (by rw [← hst3def]) (by rw [← hst3def]) (fun r hr => by rw [← hst3def] at hr; exact hr)⟩, ⟨⟨c :: nwc, by rw [hnw1]; rfl, ?_, ?_⟩, ?_⟩, ?_⟩
+        refine ⟨st3, c :: post2, ?_, ⟨hst3, hpo3, ?_, hres2.ma.congr (by rw [← hst3def]) (by rw [← hst3def]) (fun r hr => by rw [← hst3def] at hr; exact hr)⟩, ⟨⟨c :: nwc, by rw [hnw1]; rfl, ?_, ?_⟩, ?_⟩, ?_, ?_⟩
         · obtain ⟨F, hF⟩ : ∃ F, fuel = nc + (F + 1) := ⟨fuel - nc - 1, by omega⟩
           rw [hF, hrunc, hpop]
         · intro t ht hd
@@ -1083,6 +1143,19 @@ theorem rootStep_spec (hE : EnvOK e L nextl0) {adj : Nat → List Nat}
         · refine hpost _ (fun h => absurd h hkp) (fun _ => ?_)
           rw [hcc, hj', hpost2, ← adjG_eq, ← hadj c hrep2 hrep3]
           simp [dfsVisit, hcpost]
+        · intro nw hnw r
+          have hnweq : nw = c :: nwc := by
+            have : nw ++ post = (c :: nwc) ++ post := by rw [← hnw, hnw1]; simp
+            exact append_cancel_right this
+          have hm1 : mk2 e st1 r = e.jcol ↔ (mk2 e st r = e.jcol ∨ r = krow) := by
+            have := mk2_mark_iff (e := e) (st := st) (row := krow) (r := r) hmr0 hmr1
+            unfold mk2 at this ⊢
+            rw [e_mark]; exact this
+          have hm3 : mk2 e st3 r = mk2 e st2 r := by unfold mk2; rw [← hst3def]
+          have hadjc : slice L (rd e.xprune c - ((rd e.xprune c - rd e.xlsub c).toNat : Int)) (rd e.xprune c) = adjRows e L (c : Int) := by
+            unfold adjRows; congr 1; omega
+          rw [hm3, hres2.marks nwc hnw1 r, hm1, hadjc, hnweq, ex_cons, mem_singleton]
+          exact or_shuffle3
 
 end root
 
@@ -1101,17 +1174,21 @@ theorem search_spec (hE : EnvOK e L nextl0) {adj : Nat → List Nat}
       (∀ r ∈ rows, 0 ≤ r ∧ r < e.m) →
       ∃ st' post', search e fuel rows st = some st' ∧
         Root (e := e) (L := L) (nextl0 := nextl0) post' st' ∧ SegExt st post st' post' ∧
-        post' = (rootCols e rows).foldl (fun acc k => dfsVisit adj e.jcol.toNat (repN e k) acc) post := by
+        post' = (rootCols e rows).foldl (fun acc k => dfsVisit adj e.jcol.toNat (repN e k) acc) post ∧
+        MarkExt e L st post st' post' rows := by
   intro rows
   induction rows with
-  | nil => intro st post hR _; exact ⟨st, post, rfl, hR, SegExt.refl _ _, by simp [rootCols]⟩
+  | nil => intro st post hR _; exact ⟨st, post, rfl, hR, SegExt.refl _ _, by simp [rootCols], MarkExt.refl _ _⟩
   | cons krow rows ih =>
     intro st post hR hrows
-    obtain ⟨st1, post1, h1, hR1, hS1, hp1⟩ := rootStep_spec hE hadj hfuel hR (hrows krow mem_cons_self).1 (hrows krow mem_cons_self).2
-    obtain ⟨st2, post2, h2, hR2, hS2, hp2⟩ := ih st1 post1 hR1 (fun r hr => hrows r (mem_cons_of_mem _ hr))
-    refine ⟨st2, post2, by simp [search, h1, h2], hR2, hS1.trans hR.ok.nseg0 hS2, ?_⟩
-    rw [hp2, hp1]
-    conv_rhs => rw [rootCols_cons, foldl_append]
+    obtain ⟨st1, post1, h1, hR1, hS1, hp1, hM1⟩ := rootStep_spec hE hadj hfuel hR (hrows krow mem_cons_self).1 (hrows krow mem_cons_self).2
+    obtain ⟨st2, post2, h2, hR2, hS2, hp2, hM2⟩ := ih st1 post1 hR1 (fun r hr => hrows r (mem_cons_of_mem _ hr))
+    refine ⟨st2, post2, by simp [search, h1, h2], hR2, hS1.trans hR.ok.nseg0 hS2, ?_, ?_⟩
+    · rw [hp2, hp1]
+      conv_rhs => rw [rootCols_cons, foldl_append]
+    · obtain ⟨n1, a1, _⟩ := hS1.new
+      obtain ⟨n2, b1, _⟩ := hS2.new
+      exact hM1.trans hM2 ⟨n1, a1⟩ ⟨n2, b1⟩
 
 end search
 
@@ -1237,7 +1314,7 @@ theorem columnDfs_eq_dfsList (h : wfIn i = true) :
       (∀ x, x < i.nseg → rd o.segrep x = rd i.segrep x) := by
   have hE := wfIn_env h
   have hR := wfIn_root h
-  obtain ⟨st', post', hs, hR', hS, hp⟩ := search_spec hE (adj := adjR i.env i.lsub) (fun s h1 h2 => adjR_eq _ _ s h1 h2)
+  obtain ⟨st', post', hs, hR', hS, hp, _⟩ := search_spec hE (adj := adjR i.env i.lsub) (fun s h1 h2 => adjR_eq _ _ s h1 h2)
     (wfIn_fuel h) (colRows i.lsubCol) i.st0 _ hR (wfIn_unpack h).2.2.2.2.2.2.2
   obtain ⟨nw, n1, n2, n3⟩ := hS.new
   simp only [columnDfs, hs]
@@ -1321,7 +1398,7 @@ theorem search_lsub (h : wfIn i = true) :
       rd i.xlsub i.jcol ≤ st'.nextl ∧ st'.nextl ≤ st'.lsub.size := by
   have hE := wfIn_env h
   have hR := wfIn_root h
-  obtain ⟨st', post', hs, hR', _, _⟩ := search_spec hE (adj := adjR i.env i.lsub) (fun s h1 h2 => adjR_eq _ _ s h1 h2)
+  obtain ⟨st', post', hs, hR', _, _, _⟩ := search_spec hE (adj := adjR i.env i.lsub) (fun s h1 h2 => adjR_eq _ _ s h1 h2)
     (wfIn_fuel h) (colRows i.lsubCol) i.st0 _ hR (wfIn_unpack h).2.2.2.2.2.2.2
   refine ⟨st', hs, hR'.ok.app.nodup, fun r => ⟨fun hr => hR'.ok.app.rows r hr, fun ⟨a, b, c, d⟩ => hR'.ma r a b d c⟩,
     hR'.ok.pre, hR'.ok.nextl, ?_⟩
